@@ -39,8 +39,8 @@ int ldb_create_dir(const char *dirname) { g_mk_calls++; g_mk_dir = dirname; g_t_
 int ldb_rename_file(const char *from, const char *to) {
   g_ren_calls++; g_ren_from = from; g_ren_to = to; g_t_rename = ++g_clock;
   /* observation point of the carrier: one archive = one rename of the named file */
-  g_arch_calls++; g_arch_name = from; g_arch_kind = g_nm_kind; g_arch_num = g_nm_num;
-  if (g_nm_kind == g_arch_track_kind && g_nm_num == g_arch_track_num) g_arch_track_hits++;
+  g_arch_calls++; g_arch_name = from; g_arch_kind = NM_KIND_OF(from); g_arch_num = NM_NUM_OF(from);
+  if (NM_KIND_OF(from) == g_arch_track_kind && NM_NUM_OF(from) == g_arch_track_num) g_arch_track_hits++;
   return nondet_int();
 }
 int ldb_remove_file(const char *filename) { g_arch_removes++; return nondet_int(); }
@@ -52,7 +52,8 @@ void h_archive(void) {
   char *name = malloc(4);
   __CPROVER_assume(rep != NULL && name != NULL);
   name[0] = 'd'; name[1] = '/'; name[2] = 'f'; name[3] = 0;
-  g_rep = rep; g_nm_buf = name;
+  g_rep = rep;
+  if (nondet_int()) { g_nm_buf = name; g_pin_buf = NULL; } else { g_pin_buf = name; g_nm_buf = NULL; }   /* the latest name, or the one handed down */
   g_arch_removes = 0; g_dir_calls = g_j_calls = g_base_calls = g_mk_calls = g_ren_calls = 0; g_clock = 0; g_t_mkdir = g_t_rename = 0;
   g_base_obj[0] = 'f'; g_base_obj[1] = 0;
   __CPROVER_assume(g_arch_calls < 1000000u && g_arch_track_hits < 1000000u);
